@@ -147,6 +147,11 @@ def main(chk: Check):
     chk.model("HyperTuner_mc.cfg", res, note="LawLen, LawIndex, LawOutOfRange, LawDistinct, LawSelect over all grids / tables")
     for cfg, law in (("HyperTuner_doubleinvert.cfg", "LawSelect"), ("HyperTuner_offbyone.cfg", "LawIndex")):
         chk.model(cfg, tlc.run("HyperTuner.tla", cfg, workers=4, timeout=600), expect=law, note="named deviation")
+    chk.model("TunerMachine_mc.cfg", tlc.run("TunerMachine.tla", "TunerMachine_mc.cfg", workers=4, timeout=300),
+              note="execute/resolve as a machine: EveryPointOncePerTrial, RunSawItsPoint, ResolveUsesBest, Finishes")
+    for cfg, law in (("TunerMachine_stale.cfg", "RunSawItsPoint"), ("TunerMachine_skip.cfg", "EveryPointOncePerTrial"),
+                     ("TunerMachine_accumulate.cfg", "RunSawItsPoint"), ("TunerMachine_resolvelast.cfg", "ResolveUsesBest")):
+        chk.model(cfg, tlc.run("TunerMachine.tla", cfg, workers=2, timeout=300), expect=law, note="named deviation")
     states = tlaval.parse_dump(dump)
     dump.unlink(missing_ok=True)
     grids = [s["c"]["grid"] for s in states if s["c"]["kind"] == "grid"]
